@@ -215,7 +215,7 @@ pub struct Rec {
 
 impl Rec {
     pub fn message(&self) -> String {
-        self.msg.concat()
+        self.msg.iter().filter(|p| p.as_str() != LATE_MDC_PIECE).map(|p| p.as_str()).collect()
     }
     pub fn level(&self) -> log::Level {
         crate::model::route::LEVELS[self.level as usize % 5]
@@ -245,11 +245,21 @@ macro_rules! msg_lit3 {
 /// Messages that reach the encoder as argument-free literals (see `with_rec`).
 pub const MSG_LITERALS: [&str; 4] = [msg_lit0!(), msg_lit1!(), msg_lit2!(), msg_lit3!()];
 
+/// A message piece that stands for "an argument whose Display inserts `LATE_MDC` into the MDC and prints nothing".
+pub const LATE_MDC_PIECE: &str = "\u{1}late-mdc\u{1}";
+pub const LATE_MDC: (&str, &str) = ("late-key", "late \"value\"");
+
 struct Pieces<'a>(&'a [String]);
 impl<'a> fmt::Display for Pieces<'a> {
     fn fmt(&self, f: &mut fmt::Formatter<'_>) -> fmt::Result {
         use fmt::Write;
         for p in self.0 {
+            if p == LATE_MDC_PIECE {
+                // an argument whose Display has a side effect on the diagnostic context (it assigns a request id
+                // lazily, say) and prints nothing itself
+                log_mdc::insert(LATE_MDC.0, LATE_MDC.1);
+                continue;
+            }
             // a piece of one character arrives the way a `char` argument (or a fill character) does
             let mut cs = p.chars();
             match (cs.next(), cs.next()) {
